@@ -165,6 +165,26 @@ def model_check(ctx, module, cfg, workers=None, heap="4g", timeout=1200, extra=(
     return res, out
 
 
+def apalache_check(ctx, module, inv, length=0, timeout=900):
+    """Symbolic (SMT) check of an invariant over unbounded integers with Apalache: Init => Inv for length 0, plus `length` steps.
+    Used as an unbounded companion of a bounded TLC enumeration; a counterexample or a tool error is a tool failure (the model is wrong),
+    never a violation of the implementation."""
+    t = time.time()
+    out_dir = ctx.path("meta", "apalache_" + module, "x")
+    cmd = ["apalache-mc", "check", "--length=%d" % length, "--inv=" + inv, "--out-dir=" + os.path.dirname(out_dir), module + ".tla"]
+    try:
+        r = subprocess.run(cmd, cwd=SPEC, capture_output=True, text=True, timeout=timeout)
+    except subprocess.TimeoutExpired:
+        raise ToolFailure("apalache timeout on %s" % module)
+    out = r.stdout + r.stderr
+    ok = "The outcome is: NoError" in out
+    ctx.mc_results.append({"module": module, "cfg": "apalache --length=%d --inv=%s" % (length, inv), "generated": 0, "distinct": 0, "ok": ok,
+                           "wall_s": round(time.time() - t, 1), "action_coverage": {}})
+    if not ok:
+        raise ToolFailure("apalache did not establish %s of %s: %s" % (inv, module, out[-800:]))
+    log("apalache: %s!%s holds for unbounded integers (%.0fs)" % (module, inv, time.time() - t))
+
+
 def tlc_emit(ctx, module, cfg, env=None, extra=(), workers=1, timeout=900, heap="4g", tagname="PLAN"):
     """Run a generator spec; collect the JSON payloads it prints as <<"PLAN", "...json...">>."""
     rc, out = run_tlc(module + ".tla", cfg, ctx.path("meta", "gen_" + module), workers=workers, heap=heap,
